@@ -140,7 +140,9 @@ impl Input {
                     s.push_str(&format!("{},{}\n", k, v));
                 }
             }
-            if !self.trailing_newline.get(i).copied().unwrap_or(true) && s.ends_with('\n') {
+            // (a blank last line needs its newline to be a line at all)
+            let blank_last = self.mode == Mode::Set && f.last().map(|(k, _)| k.is_empty()).unwrap_or(false);
+            if !self.trailing_newline.get(i).copied().unwrap_or(true) && s.ends_with('\n') && !blank_last {
                 s.pop();
             }
             std::fs::write(&p, s).expect("harness: write input file");
@@ -407,6 +409,24 @@ pub fn sorted_build(input: &Input, dir: &Path) -> Result<Vec<u8>, String> {
     res
 }
 
+/// A sorted build of the same data straight through the library.
+pub fn library_sorted_build(input: &Input) -> Vec<u8> {
+    let model = input.model();
+    if input.mode == Mode::Set {
+        let mut b = fst::SetBuilder::memory();
+        for k in model.keys() {
+            b.insert(k).expect("harness: sorted set build");
+        }
+        b.into_inner().expect("harness: sorted set build")
+    } else {
+        let mut b = fst::MapBuilder::memory();
+        for (k, v) in &model {
+            b.insert(k, *v).expect("harness: sorted map build");
+        }
+        b.into_inner().expect("harness: sorted map build")
+    }
+}
+
 pub fn read_fst(bytes: &[u8]) -> Result<(Vec<(Vec<u8>, u64)>, bool, String), String> {
     let r = catch_unwind(AssertUnwindSafe(|| -> Result<(Vec<(Vec<u8>, u64)>, bool, String), String> {
         let f = fst::raw::Fst::new(bytes).map_err(|e| format!("{:?}", e))?;
@@ -555,7 +575,29 @@ pub fn run_case(case: &Case, dir: &Path) -> CaseRun {
     }
     // inputs without repeated keys: byte identity with the sorted build
     let cr_keys = case.input.files.iter().any(|f| f.iter().any(|(k, _)| k.contains('\r')));
-    if violation.is_none() && !case.input.has_repeats() && !cr_keys {
+    // ... first with the library's builder over the sorted data (always
+    // possible), then with the command's own `--sorted` mode. `fst set
+    // --sorted` stops reading a file at its first blank line, so for set
+    // inputs that contain the empty key the library build is the only sorted
+    // build of the same data there is.
+    if violation.is_none() && !case.input.has_repeats() {
+        if let Some((_, fb)) = &first {
+            let lb = library_sorted_build(&case.input);
+            d.bytes(&lb);
+            if &lb != fb {
+                violation = v(
+                    "C19.bytes_differ_from_sorted_build",
+                    format!(
+                        "input without repeated keys: unsorted build gives {} bytes, a sorted build of the same data with the library's builder {} bytes, and they differ",
+                        fb.len(),
+                        lb.len()
+                    ),
+                );
+            }
+        }
+    }
+    let blank_set_key = case.input.mode == Mode::Set && case.input.files.iter().any(|f| f.iter().any(|(k, _)| k.is_empty()));
+    if violation.is_none() && !case.input.has_repeats() && !cr_keys && !blank_set_key {
         if let Some((_, fb)) = &first {
             match sorted_build(&case.input, &dir.join("s")) {
                 Err(e) => violation = v("C19.sorted_build_failed", e),
